@@ -3,6 +3,7 @@
   All statements are for every mapping / every size; nothing is bounded.
 -/
 import PercevalModel.Lemmas.C10
+import PercevalModel.Lemmas.C10More
 import PercevalModel.Num.GQ
 
 open Matrix
@@ -228,10 +229,9 @@ theorem heralds_appended_partial (cs : Nat) (mp : NMap) (hpos : List Nat) :
     · simp
     · intro i h1 h2
       simp
-/- Full statement (validated by the correspondence on every run, not proved): after
-   `compose … = .ok res` for a processor, `res.heralds = l.heralds ++ [(l.cs + i, expectedᵢ)]`,
-   `res.dets = l.dets ++ [r.dets[posᵢ]]`, `res.cs = l.cs + #heralds`.  The monadic `compose` and the port
-   loops (`transferOut`) are executable model code only; the theorem above covers the mapping part. -/
+/- The full statement — after `compose … = .ok res` for a processor, `res.heralds = l.heralds ++
+   [(l.cs + i, expectedᵢ)]`, `res.dets = l.dets ++ [r.dets[posᵢ]]`, `res.cs = l.cs + #heralds`, through the
+   monadic `compose` and the port loop `transferOut` — is `heralds_appended` below. -/
 
 /-! ## availability of the modes after a composition (history of a long-lived processor)
 
@@ -440,5 +440,534 @@ example : (renamePS true (some [1, 0]) 1 (.cond [0] .eq 1)).conds = [[2]] ∧
 def exC : Matrix (Fin 2) (Fin 2) GQ := fun i j => if i = j then 0 else GQ.I
 
 example : IsPermList 3 [1, 2, 0] := by decide
+
+/-! # End-to-end statements (through `compose`, `resolve`, the port loops) -/
+
+/-! ## heralds and detectors of the composed processor, end to end
+
+The statements below go through the monadic `compose` (`resolve`, `_validate_postselect_composition`,
+port removal, `add_heralded_modes`, `generate_permutation`, the output-port loop with `_add_herald`).
+Hypotheses are the well-formedness of the bookkeeping the code maintains by construction:
+`heralds` *is* the list of herald ports (`Experiment.heralds` is computed from `_out_ports`), and herald
+ports sit on modes that are not connectible. -/
+
+/-- **heralds appended** (full statement): after an accepted `add` of a processor — any mapping syntax,
+any flag setting — the circuit grew by one mode per herald of the added processor; `heralds` is the old
+dictionary followed, in the order of the added processor's `heralds`, by `circuit_size + i ↦ expectedᵢ`;
+`detectors` is the old list followed by the detectors the added processor had on its herald modes. -/
+theorem heralds_appended (f1 f2 f3 : Bool) (l r : Side) (raw : RawMap) (keep : Bool) (res : Result)
+    (hr : r.comp = false)
+    (hlh : l.heralds = heraldsOf l.outp)
+    (hlc : ∀ p ∈ l.outp, p.herald = true → ∀ k : Nat, p.start ≤ k → k < p.start + p.size →
+      connectible l.cs l.conn (k : Int) = false)
+    (hrh : r.heralds = heraldsOf r.outp)
+    (h : compose f1 f2 f3 l r raw keep = .ok res) :
+    res.cs = l.cs + r.heralds.length ∧
+    res.heralds = l.heralds ++
+      (List.range r.heralds.length).zipWith (fun i h => (l.cs + i, h.2)) r.heralds ∧
+    res.dets = l.dets ++ r.heralds.map (fun h => r.dets.getD h.1 none) := by
+  obtain ⟨d, mp, perm, inp1, outp1, inp2, -, -, -, -, -, -, -, -, -, -, hcs, -, hh, hdets, -, ho⟩ :=
+    compose_proc_inv f1 f2 f3 l r raw keep res hr h
+  obtain ⟨keys, new, hkeys, e, hnew, -⟩ := compose_proc_ports f1 f2 f3 l r raw keep res hr hrh h
+  refine ⟨hcs, ?_, by rw [hdets, List.map_map]; rfl⟩
+  rw [hh, ← ho, e, heraldsOf_append, hnew, hlh]
+  congr 1
+  unfold heraldsOf
+  rw [removePorts_herald_filter keep l.outp keys (keys_avoid_heralds l keys hkeys hlc)]
+
+/-- a bare component brings no herald: size, heralds and detectors are unchanged (whether or not the
+output ports under the mapped modes are removed) -/
+theorem heralds_unchanged_component (f1 f2 f3 : Bool) (l r : Side) (raw : RawMap) (keep : Bool)
+    (res : Result) (hr : r.comp = true)
+    (hlh : l.heralds = heraldsOf l.outp)
+    (hlc : ∀ p ∈ l.outp, p.herald = true → ∀ k : Nat, p.start ≤ k → k < p.start + p.size →
+      connectible l.cs l.conn (k : Int) = false)
+    (h : compose f1 f2 f3 l r raw keep = .ok res) :
+    res.cs = l.cs ∧ res.heralds = l.heralds ∧ res.dets = l.dets := by
+  obtain ⟨d, mp, perm, hd, hmp, -, -, -, -, -, -, hcs, -, hh, hdets, -, -, -⟩ :=
+    compose_comp_inv f1 f2 f3 l r raw keep res hr h
+  obtain ⟨-, -, -, -, -, hconn⟩ := resolved_nmap_facts f1 l r raw d mp hd hmp
+  refine ⟨hcs, ?_, hdets⟩
+  rw [hh, hlh]
+  unfold heraldsOf
+  rw [removePorts_herald_filter keep l.outp _ (keys_avoid_heralds l _ ?_ hlc)]
+  rw [← toNMap_keys d mp hmp]; exact hconn
+
+/-- a mode that is not connectible stays so after any `add` (old modes keep their type, imported modes are
+reserved) -/
+theorem connectible_after_false (l r : Side) (hl : l.conn.length = l.cs) (k : Int)
+    (h : connectible l.cs l.conn k = false) :
+    connectible (csAfter l r) (connAfter l r) k = false := by
+  by_cases hk : k < (l.cs : Int)
+  · rw [old_modes_keep_availability l r hl k hk]; exact h
+  · cases hr : r.comp with
+    | true => simpa [csAfter, connAfter, hr] using h
+    | false => exact imported_heralds_reserved l r hl hr k (by omega)
+
+theorem compose_keeps_heralds_reserved (f1 f2 f3 : Bool) (l r : Side) (raw : RawMap) (keep : Bool)
+    (res : Result) (hl : l.conn.length = l.cs)
+    (hrh : r.comp = false → r.heralds = heraldsOf r.outp)
+    (hres : HeraldPortsReserved l.cs l.conn l.outp)
+    (h : compose f1 f2 f3 l r raw keep = .ok res) :
+    res.conn.length = res.cs ∧ res.heralds = heraldsOf res.outp ∧
+      HeraldPortsReserved res.cs res.conn res.outp := by
+  obtain ⟨ecs, econn⟩ := compose_conn f1 f2 f3 l r raw keep res h
+  have hold : ∀ p ∈ l.outp, p.herald = true →
+      p.size = 1 ∧ connectible res.cs res.conn (p.start : Int) = false := by
+    intro p hp hh
+    obtain ⟨hs, hc⟩ := hres p hp hh
+    rw [ecs, econn]
+    exact ⟨hs, connectible_after_false l r hl _ hc⟩
+  cases hr : r.comp with
+  | true =>
+    obtain ⟨d, mp, perm, -, -, -, -, -, -, -, -, hcs, hconn, hh, -, -, ho, -⟩ :=
+      compose_comp_inv f1 f2 f3 l r raw keep res hr h
+    refine ⟨by rw [hcs, hconn, hl], by rw [hh, ho], ?_⟩
+    intro p hp hph
+    rw [ho] at hp
+    exact hold p (removePorts_subset _ _ _ p hp) hph
+  | false =>
+    obtain ⟨d, mp, perm, inp1, outp1, inp2, -, -, -, -, -, -, -, -, -, -, hcs, hconn, hh, -, -, ho⟩ :=
+      compose_proc_inv f1 f2 f3 l r raw keep res hr h
+    obtain ⟨keys, new, -, e, hnew, hsz⟩ :=
+      compose_proc_ports f1 f2 f3 l r raw keep res hr (hrh hr) h
+    refine ⟨by rw [hcs, hconn]; simp [hl], by rw [hh, ho], ?_⟩
+    intro p hp hph
+    rw [e] at hp
+    rcases List.mem_append.1 hp with hp | hp
+    · exact hold p (removePorts_subset _ _ _ p hp) hph
+    · refine ⟨hsz p hp hph, ?_⟩
+      have hm := heraldsOf_mem hp hph
+      rw [hnew] at hm
+      obtain ⟨i, hi, e'⟩ := List.mem_iff_getElem.1 hm
+      simp only [List.getElem_zipWith, List.getElem_range] at e'
+      have hst : p.start = l.cs + i := (congrArg Prod.fst e').symm
+      rw [ecs, econn, hst]
+      exact imported_heralds_reserved l r hl hr _ (by push_cast; omega)
+
+theorem result_heralds_reserved (f1 f2 f3 : Bool) (l r : Side) (raw : RawMap) (keep : Bool)
+    (res : Result) (hl : l.conn.length = l.cs)
+    (hrh : r.comp = false → r.heralds = heraldsOf r.outp)
+    (hres : HeraldPortsReserved l.cs l.conn l.outp)
+    (h : compose f1 f2 f3 l r raw keep = .ok res) :
+    ∀ hm ∈ res.heralds, connectible res.cs res.conn (hm.1 : Int) = false := by
+  obtain ⟨-, e, hp⟩ := compose_keeps_heralds_reserved f1 f2 f3 l r raw keep res hl hrh hres h
+  intro hm hmem
+  rw [e] at hmem
+  obtain ⟨p, hpo, hph, hs, -⟩ := mem_heraldsOf hmem
+  rw [← hs]
+  exact (hp p hpo hph).2
+
+/-! ## `generate_permutation` never raises on a legal mapping -/
+
+/-- **completeness of PERM's assertion**: on a legal mapping (distinct left modes, right-hand modes
+`0 … n-1` in some order) `generate_permutation` does not raise; it returns no PERM when the vector is the
+identity and the PERM of `permVect` otherwise. -/
+theorem genPerm_never_raises (mp : NMap) (hne : mp ≠ []) (hk : mp.keys.Nodup) (hv : mp.vals.Nodup)
+    (hb : ∀ v ∈ mp.vals, v < mp.length) :
+    genPerm mp = .ok (if permVect mp = List.range (permVect mp).length then none
+      else some (permVect mp)) := by
+  have hp := permValid_of_isPerm (permVect mp) (permVect_ne_nil mp hne hk)
+    (genPerm_isPerm mp hne hk hv hb)
+  simp only [genPerm]
+  split_ifs <;> rfl
+
+/-- … and legality is exactly what the assertion tests: for a mapping with distinct left modes,
+`generate_permutation` returns iff the right-hand modes are distinct and `< n`. -/
+theorem genPerm_ok_iff (mp : NMap) (hne : mp ≠ []) (hk : mp.keys.Nodup) :
+    (∃ σ, genPerm mp = .ok σ) ↔ mp.vals.Nodup ∧ ∀ v ∈ mp.vals, v < mp.length := by
+  constructor
+  · rintro ⟨σ, h⟩; exact legal_of_genPerm_ok mp hk σ h
+  · rintro ⟨hv, hb⟩; exact ⟨_, genPerm_never_raises mp hne hk hv hb⟩
+
+/-- the only way `generate_permutation` fails is PERM's `AssertionError`, exactly on the illegal mappings -/
+theorem genPerm_raises_iff (mp : NMap) (hne : mp ≠ []) (hk : mp.keys.Nodup) (e : Err) :
+    genPerm mp = .error e ↔
+      e = .assertion ∧ ¬ (mp.vals.Nodup ∧ ∀ v ∈ mp.vals, v < mp.length) := by
+  rw [← genPerm_ok_iff mp hne hk]
+  constructor
+  · intro h
+    refine ⟨?_, fun ⟨σ, hσ⟩ => by rw [hσ] at h; cases h⟩
+    simp only [genPerm] at h
+    split_ifs at h
+    cases h; rfl
+  · rintro ⟨rfl, hn⟩
+    cases hg : genPerm mp with
+    | ok σ => exact absurd ⟨σ, hg⟩ hn
+    | error e' =>
+      simp only [genPerm] at hg
+      split_ifs at hg
+      cases hg; rfl
+
+/-- **end to end**: whenever `resolve` accepts a mapping whose right-hand values are modes of interest of
+the added object (no herald, nothing out of range) and the added object is well formed, the mapping
+`compose` hands to `generate_permutation` — the heralded modes of an added processor included — is legal,
+so `generate_permutation` returns. -/
+theorem genPerm_ok_of_accepted (fixed : Bool) (l r : Side) (raw : RawMap) (d : Dict) (mp : NMap)
+    (h : resolve fixed l r raw = .ok d) (hm : toNMap d = some mp) (hwf : RightWF r)
+    (hvals : ∀ v ∈ mp.vals, v ∈ orderedRModes r) :
+    ∃ σ, genPerm (permInput l r mp) = .ok σ := by
+  obtain ⟨hne, hk, hv, hb⟩ := permInput_legal fixed l r raw d mp h hm hwf hvals
+  exact ⟨_, genPerm_never_raises _ hne hk hv hb⟩
+
+/-- offset and list mappings need no side condition: every one `resolve` accepts goes through
+`generate_permutation` -/
+theorem genPerm_ok_of_accepted_int_list (fixed : Bool) (l r : Side) (raw : RawMap) (d : Dict)
+    (hraw : ∀ items, raw ≠ .ofDict items) (hwf : RightWF r)
+    (h : resolve fixed l r raw = .ok d) :
+    ∃ mp σ, toNMap d = some mp ∧ genPerm (permInput l r mp) = .ok σ := by
+  obtain ⟨mp, hm, hvals⟩ := resolve_simple_toNMap fixed l r raw d hraw hwf h
+  obtain ⟨σ, hσ⟩ := genPerm_ok_of_accepted fixed l r raw d mp h hm hwf hvals
+  exact ⟨mp, σ, hm, hσ⟩
+
+/-- **through `compose`**: for an offset or list mapping onto a well-formed right-hand object, the only
+`AssertionError` `Processor.add` can end in is the explicit `can_compose_with` assertion about the left
+post-selection — never PERM's, neither in `_add_component` nor in `_compose_experiment` (heralded modes
+included). -/
+theorem compose_no_perm_assertion (f1 f2 f3 : Bool) (l r : Side) (raw : RawMap) (keep : Bool)
+    (hraw : ∀ items, raw ≠ .ofDict items) (hwf : RightWF r)
+    (h : compose f1 f2 f3 l r raw keep = .error .assertion) :
+    ∃ d, resolve f1 l r raw = .ok d ∧ validatePS l (d.keys.map Int.toNat) = .error .assertion := by
+  refine compose_assertion_inv f1 f2 f3 l r raw keep hraw hwf ?_ h
+  intro d mp hd hm
+  obtain ⟨mp', σ, hm', hσ⟩ := genPerm_ok_of_accepted_int_list f1 l r raw d hraw hwf hd
+  rw [hm] at hm'
+  cases hm'
+  exact ⟨σ, hσ⟩
+
+/-- in particular, on a left processor without post-selection such an `add` never raises `AssertionError` -/
+theorem compose_int_list_never_assertion (f1 f2 f3 : Bool) (l r : Side) (raw : RawMap) (keep : Bool)
+    (hraw : ∀ items, raw ≠ .ofDict items) (hwf : RightWF r) (hps : l.ps = none) :
+    compose f1 f2 f3 l r raw keep ≠ .error .assertion := by
+  intro h
+  obtain ⟨d, -, hv⟩ := compose_no_perm_assertion f1 f2 f3 l r raw keep hraw hwf h
+  simp [validatePS, hps] at hv
+
+/-! ## the offset and list forms of `resolve` (corollaries of `resolve_ok_iff`) -/
+
+/-- **offset mapping** `add(b, obj)`: accepted iff it stands for `{b+i : r_list[i]}`, the `m` consecutive left
+modes `b … b+m-1` are all connectible and the right-hand modes of interest are distinct -/
+theorem resolve_int_ok_iff (fixed : Bool) (l r : Side) (b : Int) (d : Dict) (hm : 0 < r.m) :
+    resolve fixed l r (.ofInt b) = .ok d ↔
+      d = intMap b r ∧ (∀ i : Nat, i < r.m → connectible l.cs l.conn (b + i) = true) ∧
+        (intMap b r).vals.Nodup := by
+  rw [resolve_int_eq, ← intMap_forall b r (fun k => connectible l.cs l.conn k = true)]
+  have hlen : (intMap b r).length = r.m := by simp [intMap]
+  have hiff := resolve_ok_iff l.cs l.conn r.m (intMap b r) (intMap_ne_nil b r hm)
+  constructor
+  · intro h
+    split at h
+    · rename_i u hc
+      cases h
+      exact ⟨rfl, ((hiff.1 (by cases u; exact hc)).2)⟩
+    · cases h
+  · rintro ⟨rfl, h2, h3⟩
+    rw [hiff.2 ⟨hlen, h2, h3⟩]
+
+/-- for a well-formed right-hand object the last condition always holds: an offset mapping is accepted iff
+modes `b … b+m-1` are connectible … -/
+theorem resolve_int_ok_iff_wf (fixed : Bool) (l r : Side) (b : Int) (d : Dict) (hm : 0 < r.m)
+    (hwf : RightWF r) :
+    resolve fixed l r (.ofInt b) = .ok d ↔
+      d = intMap b r ∧ ∀ i : Nat, i < r.m → connectible l.cs l.conn (b + i) = true := by
+  rw [resolve_int_ok_iff fixed l r b d hm]
+  have : (intMap b r).vals.Nodup := by
+    rw [intMap_vals b r hwf]; exact map_ofNat_nodup _ (orderedRModes_nodup r)
+  exact ⟨fun h => ⟨h.1, h.2.1⟩, fun h => ⟨h.1, h.2, this⟩⟩
+
+/-- … and is refused otherwise with `UnavailableModeException`, nothing else -/
+theorem resolve_int_error_iff_wf (fixed : Bool) (l r : Side) (b : Int) (e : Err) (hm : 0 < r.m)
+    (hwf : RightWF r) :
+    resolve fixed l r (.ofInt b) = .error e ↔
+      e = .unavailable ∧ ∃ i : Nat, i < r.m ∧ connectible l.cs l.conn (b + i) = false := by
+  have hne := intMap_ne_nil b r hm
+  have hlen : (intMap b r).length = r.m := by simp [intMap]
+  have hnd : (intMap b r).vals.Nodup := by
+    rw [intMap_vals b r hwf]; exact map_ofNat_nodup _ (orderedRModes_nodup r)
+  have hex : (∃ p ∈ intMap b r, connectible l.cs l.conn p.1 = false) ↔
+      ∃ i : Nat, i < r.m ∧ connectible l.cs l.conn (b + i) = false := by
+    simp only [intMap, List.mem_map, List.mem_range]
+    constructor
+    · rintro ⟨p, ⟨i, hi, rfl⟩, hc⟩; exact ⟨i, hi, hc⟩
+    · rintro ⟨i, hi, hc⟩; exact ⟨_, ⟨i, hi, rfl⟩, hc⟩
+  rw [resolve_int_eq, ← hex, checkConsistency_eq _ _ _ _ hne, if_neg (not_not.2 hlen),
+    if_neg (not_not.2 hnd)]
+  by_cases h2 : ∃ p ∈ intMap b r, connectible l.cs l.conn p.1 = false
+  · rw [if_pos h2]
+    constructor
+    · intro h; cases h; exact ⟨rfl, h2⟩
+    · rintro ⟨rfl, _⟩; rfl
+  · rw [if_neg h2]
+    constructor
+    · intro h; cases h
+    · rintro ⟨_, h⟩; exact absurd h h2
+
+/-- **list mapping** `add([k0, k1, …], obj)` onto a well-formed right-hand object with `m ≥ 1` modes of
+interest: accepted iff the list has `m` entries, no repetition, and names only connectible left modes; the
+resolved mapping is then `zip(list, r_list)` -/
+theorem resolve_list_ok_iff (fixed : Bool) (l r : Side) (ks : List Int) (d : Dict) (hm : 0 < r.m)
+    (hwf : RightWF r) :
+    resolve fixed l r (.ofList ks) = .ok d ↔
+      ks.length = r.m ∧ ks.Nodup ∧ (∀ k ∈ ks, connectible l.cs l.conn k = true) ∧
+        d = listMap ks r := by
+  have hrl := orderedRModes_length r hwf
+  rw [resolve_list_eq, hrl]
+  by_cases hlen : ks.length = r.m
+  · rw [if_neg (not_not.2 hlen)]
+    have hlen' : ks.length = (orderedRModes r).length := by rw [hrl]; exact hlen
+    have hkeys := listMap_keys ks r hlen'
+    have hvals := listMap_vals ks r hlen'
+    have hL := listMap_length ks r hlen'
+    constructor
+    · intro h
+      split at h
+      · rename_i u hc
+        cases h
+        obtain ⟨-, h1, -, h4⟩ := checkConsistency_ok _ _ _ _ hc
+        have hnd : ((listMap ks r).map (·.1)).Nodup :=
+          (dictOf_length_iff _).1 (by rw [h1, hL, hlen])
+        have e := dictOf_of_nodup _ hnd
+        rw [hkeys] at hnd
+        refine ⟨hlen, hnd, fun k hk => ?_, e⟩
+        rw [e] at h4
+        rw [← hkeys] at hk
+        obtain ⟨p, hp, rfl⟩ := List.mem_map.1 hk
+        exact h4 p hp
+      · cases h
+    · rintro ⟨-, hnd, hc, rfl⟩
+      have e := dictOf_of_nodup (listMap ks r) (by rw [hkeys]; exact hnd)
+      rw [e]
+      have hne : listMap ks r ≠ [] := by
+        intro h0
+        have h1 : (listMap ks r).length = 0 := by rw [h0]; rfl
+        omega
+      have : checkConsistency l.cs l.conn r.m (listMap ks r) = .ok () := by
+        refine (resolve_ok_iff _ _ _ _ hne).2 ⟨by rw [hL, hlen], fun p hp => ?_, ?_⟩
+        · exact hc p.1 (by rw [← hkeys]; exact List.mem_map.2 ⟨p, hp, rfl⟩)
+        · rw [hvals]; exact map_ofNat_nodup _ (orderedRModes_nodup r)
+      rw [this]
+  · rw [if_pos hlen]
+    constructor
+    · intro h; cases h
+    · rintro ⟨h, _⟩; exact absurd h hlen
+
+/-- … refused with `InvalidMappingException` exactly when the size is wrong or a left mode is repeated … -/
+theorem resolve_list_invalid_iff (fixed : Bool) (l r : Side) (ks : List Int) (hm : 0 < r.m)
+    (hwf : RightWF r) :
+    resolve fixed l r (.ofList ks) = .error .invalid ↔ ks.length ≠ r.m ∨ ¬ ks.Nodup := by
+  have hrl := orderedRModes_length r hwf
+  rw [resolve_list_eq, hrl]
+  by_cases hlen : ks.length = r.m
+  · rw [if_neg (not_not.2 hlen)]
+    have hlen' : ks.length = (orderedRModes r).length := by rw [hrl]; exact hlen
+    have hkeys := listMap_keys ks r hlen'
+    have hvals := listMap_vals ks r hlen'
+    have hL := listMap_length ks r hlen'
+    by_cases hnd : ks.Nodup
+    · have e := dictOf_of_nodup (listMap ks r) (by rw [hkeys]; exact hnd)
+      have hne : listMap ks r ≠ [] := by
+        intro h0
+        have h1 : (listMap ks r).length = 0 := by rw [h0]; rfl
+        omega
+      rw [e, checkConsistency_eq _ _ _ _ hne, if_neg (not_not.2 (by rw [hL, hlen])),
+        if_neg (not_not.2 (by rw [hvals]; exact map_ofNat_nodup _ (orderedRModes_nodup r)))]
+      constructor
+      · intro h
+        split at h
+        · cases h
+        · rename_i e' hc
+          split_ifs at hc
+          · cases hc; cases h
+      · rintro (h | h)
+        · exact absurd hlen h
+        · exact absurd hnd h
+    · have hlt : (dictOf (listMap ks r)).length ≠ r.m := by
+        intro h
+        apply hnd
+        rw [← hkeys]
+        exact (dictOf_length_iff _).1 (by rw [h, hL, hlen])
+      have : checkConsistency l.cs l.conn r.m (dictOf (listMap ks r)) = .error .invalid := by
+        unfold checkConsistency
+        rw [if_pos hlt]
+      rw [this]
+      exact ⟨fun _ => Or.inr hnd, fun _ => rfl⟩
+  · rw [if_pos hlen]
+    exact ⟨fun _ => Or.inl hlen, fun _ => rfl⟩
+
+/-- … and with `UnavailableModeException` exactly when it is a duplicate-free list of the right size that
+names a left mode that is not connectible -/
+theorem resolve_list_unavailable_iff (fixed : Bool) (l r : Side) (ks : List Int) (hm : 0 < r.m)
+    (hwf : RightWF r) :
+    resolve fixed l r (.ofList ks) = .error .unavailable ↔
+      ks.length = r.m ∧ ks.Nodup ∧ ∃ k ∈ ks, connectible l.cs l.conn k = false := by
+  have hrl := orderedRModes_length r hwf
+  by_cases hbad : ks.length ≠ r.m ∨ ¬ ks.Nodup
+  · have := (resolve_list_invalid_iff fixed l r ks hm hwf).2 hbad
+    rw [this]
+    constructor
+    · intro h; cases h
+    · rintro ⟨h1, h2, -⟩
+      rcases hbad with h | h
+      · exact absurd h1 h
+      · exact absurd h2 h
+  · have hlen : ks.length = r.m := by
+      by_contra h; exact hbad (Or.inl h)
+    have hnd : ks.Nodup := by
+      by_contra h; exact hbad (Or.inr h)
+    have hlen' : ks.length = (orderedRModes r).length := by rw [hrl]; exact hlen
+    have hkeys := listMap_keys ks r hlen'
+    have hvals := listMap_vals ks r hlen'
+    have hL := listMap_length ks r hlen'
+    have e := dictOf_of_nodup (listMap ks r) (by rw [hkeys]; exact hnd)
+    have hne : listMap ks r ≠ [] := by
+      intro h0
+      have h1 : (listMap ks r).length = 0 := by rw [h0]; rfl
+      omega
+    have hex : (∃ p ∈ listMap ks r, connectible l.cs l.conn p.1 = false) ↔
+        ∃ k ∈ ks, connectible l.cs l.conn k = false := by
+      constructor
+      · rintro ⟨p, hp, hc⟩
+        exact ⟨p.1, by rw [← hkeys]; exact List.mem_map.2 ⟨p, hp, rfl⟩, hc⟩
+      · rintro ⟨k, hk, hc⟩
+        rw [← hkeys] at hk
+        obtain ⟨p, hp, rfl⟩ := List.mem_map.1 hk
+        exact ⟨p, hp, hc⟩
+    rw [resolve_list_eq, hrl, if_neg (not_not.2 hlen), e]
+    have hu := resolve_unavailable_iff l.cs l.conn r.m (listMap ks r) hne
+    rw [hex] at hu
+    constructor
+    · intro h
+      split at h
+      · cases h
+      · rename_i e' hc
+        cases h
+        exact ⟨hlen, hnd, (hu.1 hc).2⟩
+    · rintro ⟨-, -, h⟩
+      rw [hu.2 ⟨by rw [hL, hlen], h⟩]
+
+/-! ## the permutation `compose` stores wires the resolved mapping and the herald modes -/
+
+/-- wiring read off the value `generate_permutation` returned -/
+theorem genPerm_ok_wires (mp : NMap) (hk : mp.keys.Nodup) (perm : Option (List Nat))
+    (h : genPerm mp = .ok perm) {k v : Nat} (hm : (k, v) ∈ mp) :
+    (∀ σ, perm = some σ → σ[k - minN mp.keys]? = some v) ∧ (perm = none → v = k - minN mp.keys) := by
+  have hw := genPerm_wires mp hk hm
+  rcases genPerm_ok_cases mp perm h with ⟨rfl, hr⟩ | rfl
+  · refine ⟨fun σ hσ => (by cases hσ), fun _ => ?_⟩
+    rw [hr] at hw
+    have hlt : k - minN mp.keys < (permVect mp).length := by
+      by_contra hc
+      rw [List.getElem?_eq_none (by simpa using hc)] at hw
+      cases hw
+    rw [List.getElem?_range hlt] at hw
+    exact (Option.some.inj hw).symm
+  · exact ⟨fun σ hσ => (by cases hσ; exact hw), fun hn => (by cases hn)⟩
+
+/-- **the permutation stored by `compose` wires the mapping**: after an accepted `add`, for every pair
+`k ↦ v` of the resolved mapping — and, for an added processor, for every herald pair
+`circuit_size + i ↦ positionᵢ` — the PERM placed at `res.first` sends left mode `k` to input `v` of the
+added object; when no PERM was needed, `v = k − res.first` already. -/
+theorem compose_wires (f1 f2 f3 : Bool) (l r : Side) (raw : RawMap) (keep : Bool) (res : Result)
+    (h : compose f1 f2 f3 l r raw keep = .ok res) (k v : Nat)
+    (hkv : (k, v) ∈ res.map ∨ (r.comp = false ∧ ∃ i, ∃ hi : i < r.heralds.length,
+      k = l.cs + i ∧ v = (r.heralds[i]).1)) :
+    (∀ σ, res.perm = some σ → σ[k - res.first]? = some v) ∧ (res.perm = none → v = k - res.first) := by
+  cases hr : r.comp with
+  | true =>
+    obtain ⟨d, mp, perm, hd, hmp, hperm, hmap, -, hfirst, hp, -⟩ :=
+      compose_comp_inv f1 f2 f3 l r raw keep res hr h
+    obtain ⟨-, -, hk, -, -, -⟩ := resolved_nmap_facts f1 l r raw d mp hd hmp
+    rw [hfirst, hp]
+    rcases hkv with hkv | ⟨hf, -⟩
+    · exact genPerm_ok_wires mp hk perm hperm (hmap ▸ hkv)
+    · rw [hr] at hf; cases hf
+  | false =>
+    obtain ⟨d, mp, perm, inp1, outp1, inp2, hd, hmp, hperm, -, -, hmap, -, hfirst, hp, -⟩ :=
+      compose_proc_inv f1 f2 f3 l r raw keep res hr h
+    obtain ⟨-, -, hk, -, hlt, -⟩ := resolved_nmap_facts f1 l r raw d mp hd hmp
+    have hkH := addHeraldedModes_keys_nodup l.cs mp (r.heralds.map (·.1)) hk hlt
+    rw [hfirst, hp]
+    apply genPerm_ok_wires _ hkH perm hperm
+    rcases hkv with hkv | ⟨-, i, hi, rfl, rfl⟩
+    · exact (heralds_appended_partial l.cs mp _).2.1 _ (hmap ▸ hkv)
+    · have := addHeraldedModes_mem l.cs mp (r.heralds.map (·.1)) i (by simpa using hi)
+      simpa only [List.getElem_map] using this
+
+/-! ## non-vacuity of the end-to-end statements -/
+
+/-- 3-mode left processor, mode 1 heralded (expected 0) -/
+def exL : Side :=
+  { comp := false, m := 2, cs := 3, conn := [true, false, true], heralds := [(1, 0)],
+    dets := [none, some "pnr", none],
+    outp := [⟨1, 1, "herald0", true, 0, none⟩], inp := [⟨1, 1, "herald0", true, 0, none⟩],
+    outNames := ["", "herald0", ""], inNames := ["", "herald0", ""], ps := none }
+
+/-- 3-mode right processor: heralds declared on mode 2 (expected 1, threshold detector) then mode 0
+(expected 0, PNR detector); one mode of interest (mode 1) -/
+def exR : Side :=
+  { comp := false, m := 1, cs := 3, conn := [false, true, false], heralds := [(2, 1), (0, 0)],
+    dets := [some "pnr", none, some "threshold"],
+    outp := [⟨2, 1, "herald0", true, 1, none⟩, ⟨0, 1, "herald1", true, 0, none⟩],
+    inp := [⟨2, 1, "herald0", true, 1, none⟩, ⟨0, 1, "herald1", true, 0, none⟩],
+    outNames := ["herald1", "", "herald0"], inNames := ["herald1", "", "herald0"], ps := none }
+
+/-- a bare 2-mode component -/
+def exC2 : Side :=
+  { comp := true, m := 2, cs := 2, conn := [true, true], heralds := [], dets := [], outp := [], inp := [],
+    outNames := [], inNames := [], ps := none }
+
+/-- what the examples look at in the outcome of `compose` -/
+structure ExObs where
+  cs : Nat
+  heralds : List (Nat × Nat)
+  dets : List (Option String)
+  perm : Option (List Nat)
+  conn : List Bool
+deriving DecidableEq
+
+def exObs : Except Err Result → Except Err ExObs
+  | .ok res => .ok ⟨res.cs, res.heralds, res.dets, res.perm, res.conn⟩
+  | .error e => .error e
+
+/-- hypotheses of `heralds_appended`, `compose_keeps_heralds_reserved`, `result_heralds_reserved` -/
+example : exR.comp = false ∧ exL.conn.length = exL.cs ∧ exL.heralds = heraldsOf exL.outp ∧
+    exR.heralds = heraldsOf exR.outp ∧ HeraldPortsReserved exL.cs exL.conn exL.outp ∧ RightWF exR := by
+  refine ⟨rfl, rfl, by decide, by decide, ?_, ?_⟩
+  · unfold HeraldPortsReserved; decide
+  · unfold RightWF; decide
+
+/-- `add([2], exR)` on `exL`: accepted; modes 3 and 4 are appended for the heralds on positions 2 and 0 -/
+example : exObs (compose true true true exL exR (.ofList [2]) false) =
+    .ok ⟨5, [(1, 0), (3, 1), (4, 0)], [none, some "pnr", none, some "threshold", some "pnr"],
+      some [1, 2, 0], [true, false, true, false, false]⟩ := by decide
+
+/-- `add([2, 0], component)` on `exL`: nothing changes in the bookkeeping -/
+example : exObs (compose true true true exL exC2 (.ofList [2, 0]) false) =
+    .ok ⟨3, [(1, 0)], [none, some "pnr", none], some [1, 2, 0], [true, false, true]⟩ := by decide
+
+/-- hypotheses of `genPerm_never_raises` / `genPerm_ok_iff` on `{2: 1, 3: 2, 4: 0}`; an illegal mapping
+(`{0: 0, 1: 2}`, right-hand mode out of range) ends in PERM's assertion -/
+example : ([(2, 1), (3, 2), (4, 0)] : NMap) ≠ [] ∧ (NMap.keys [(2, 1), (3, 2), (4, 0)]).Nodup ∧
+    (NMap.vals [(2, 1), (3, 2), (4, 0)]).Nodup ∧
+    (∀ v ∈ NMap.vals [(2, 1), (3, 2), (4, 0)], v < 3) ∧
+    genPerm [(2, 1), (3, 2), (4, 0)] = .ok (some [1, 2, 0]) ∧
+    genPerm [(0, 0), (1, 2)] = .error .assertion := by decide
+
+/-- the offset and list forms on the same objects -/
+example : resolve true exL exR (.ofInt 2) = .ok [(2, 1)] ∧ intMap 2 exR = [(2, 1)] ∧
+    resolve true exL exR (.ofInt 1) = .error .unavailable ∧
+    resolve true exL exC2 (.ofList [2, 0]) = .ok [(2, 0), (0, 1)] ∧
+    listMap [2, 0] exC2 = [(2, 0), (0, 1)] ∧
+    resolve true exL exC2 (.ofList [2, 2]) = .error .invalid ∧
+    resolve true exL exC2 (.ofList [2]) = .error .invalid ∧
+    resolve true exL exC2 (.ofList [2, 1]) = .error .unavailable ∧
+    0 < exR.m ∧ 0 < exC2.m := by decide
+
+example : RightWF exC2 := by unfold RightWF; decide
+
+/-- `compose_no_perm_assertion` is not vacuous: with a left post-selection on modes {0, 1}, plugging onto
+mode 0 and 2 trips the `can_compose_with` assertion -/
+example : exObs (compose true true true { exL with ps := some (.cond [0, 1] .eq 1) } exC2
+    (.ofList [2, 0]) false) = .error .assertion := by decide
 
 end PM.C10
